@@ -497,7 +497,7 @@ func (ca *clusterAdmin) AlterPartitionReassignments(topic string, assignment [][
 		if err != nil {
 			errs = append(errs, err)
 		} else {
-			if rsp.ErrorCode > 0 {
+			if rsp.ErrorCode != ErrNoError {
 				if rsp.ErrorCode == ErrNotController {
 					// stale controller: look it up again and let retryOnError try there,
 					// like the other controller-bound operations do
